@@ -98,6 +98,9 @@ static std::unique_ptr<Sim> buildSim(int model, int integ, uint64_t param) {
     // initial conditions from the parameter stream
     for (int i = 0; i < state.getNQ(); ++i) if (model != 3 && model != 4 && model != 1) state.updQ()[i] = r.range(-.4, .4);
     for (int i = 0; i < state.getNU(); ++i) state.updU()[i] = r.range(-.5, .5);
+    if (std::getenv("VERIF_C46_SELFTEST") && state.getNU() > 0) {   // sensitivity self-test only: inject process-history dependence
+        Random::Uniform unseeded(-.5, .5); state.updU()[0] = unseeded.getValue();      // (un-seeded Random draws from the global seed counter)
+    }
     s.system.realizeModel(state);
     if (model == 2) {                                   // start on the constraint manifold
         s.system.realize(state, Stage::Position);
